@@ -147,6 +147,14 @@ def RemOk (os : OS) (s : Svc) : Prop := s.status = .removed → os.isInstalled s
 theorem pop_calls (fx : Fx) : (fx.pop).2.calls = fx.calls + 1 := by
   unfold Fx.pop; split <;> rfl
 
+/-- Translator tie: `on_start` writes pid/status only after its RPC calls (regenerated from node.rs). -/
+theorem rpcErrSvc_eq (s : Svc) (pid : Nat) : rpcErrSvc s pid = s := by
+  simp [rpcErrSvc, Gen.Lifecycle.onStartWritesAfterRpc]
+
+/-- Translator tie: `on_stop` clears the pid (regenerated from node.rs). -/
+theorem onStop_pid (s : Svc) : (onStop s).pid = none := by
+  simp [onStop, Gen.Lifecycle.onStopClearsPid]
+
 theorem onStartFull_cases (s : Svc) (os : OS) (fx : Fx) (pid : Nat) (ct : Bool) :
     (∃ e, (onStartFull s os fx pid ct).2.2 = some e ∧ (onStartFull s os fx pid ct).1 = s) ∨
     ((onStartFull s os fx pid ct).2.2 = none ∧ (onStartFull s os fx pid ct).1.number = s.number ∧
@@ -154,13 +162,13 @@ theorem onStartFull_cases (s : Svc) (os : OS) (fx : Fx) (pid : Nat) (ct : Bool) 
   unfold onStartFull
   split
   split
-  · left; exact ⟨_, rfl, rfl⟩
+  · left; exact ⟨_, rfl, rpcErrSvc_eq s pid⟩
   · split
     split
-    · left; exact ⟨_, rfl, rfl⟩
+    · left; exact ⟨_, rfl, rpcErrSvc_eq s pid⟩
     · split
       split
-      · left; exact ⟨_, rfl, rfl⟩
+      · left; exact ⟨_, rfl, rpcErrSvc_eq s pid⟩
       · right; exact ⟨rfl, rfl, rfl, rfl⟩
 
 /-- `start`: (A) already running, nothing happens; (B) failure, registry entry untouched, a process may have been
@@ -313,7 +321,7 @@ theorem remOk_frame {n : Nat} {os os' : OS} {s : Svc} (hf : Frame n os os') (hn 
 theorem noProc_frame {n m : Nat} {os os' : OS} (hf : Frame n os os') (hn : m ≠ n) (h : NoProc os m) :
     NoProc os' m := fun p hp hm => h p ((hf.procs p (hm ▸ hn)).mp hp) hm
 
-theorem onStop_pidOk (s : Svc) : PidOk (onStop s) := fun _ => rfl
+theorem onStop_pidOk (s : Svc) : PidOk (onStop s) := fun _ => onStop_pid s
 theorem onStop_good (os : OS) (s : Svc) : Good os (onStop s) := fun h => by simp [onStop] at h
 
 theorem svcStart_trans (s : Svc) (os : OS) (fx : Fx) (ct : Bool) :
@@ -575,7 +583,7 @@ theorem set_removedAt {w : World} {i k n : Nat} {s s' : Svc} {os' : OS} (hget : 
   · subst hik
     rw [hget] at ht; cases ht
     refine ⟨s', ?_, T.num.trans htn, T.stay hts (h.rem s (List.mem_of_getElem? hget)), ?_⟩
-    · simp [List.getElem?_set, hklt]
+    · simp [hklt]
     · exact htn ▸ T.noProc hts (h.rem s (List.mem_of_getElem? hget)) (htn ▸ hnp)
   · refine ⟨t, ?_, htn, hts, ?_⟩
     · show (w.reg.set k s')[i]? = some t
@@ -767,8 +775,13 @@ theorem foldl_max_le (reg : List Svc) (m : Nat) :
     · exact Nat.le_trans (Nat.le_max_right _ _) h1
     · exact h2 s hs
 
-theorem fresh_maxNumber (reg : List Svc) : Fresh reg (maxNumber reg + 1) :=
-  fun s hs => Nat.lt_succ_of_le ((foldl_max_le reg 0).2 s hs)
+/-- Translator tie: new services are numbered from the highest recorded number (regenerated from add_node). -/
+theorem startNumber_eq (reg : List Svc) : startNumber reg = maxNumber reg + 1 := by
+  simp [startNumber, Gen.Lifecycle.numberFromMax]
+
+theorem fresh_maxNumber (reg : List Svc) : Fresh reg (startNumber reg) := by
+  rw [startNumber_eq]
+  exact fun s hs => Nat.lt_succ_of_le ((foldl_max_le reg 0).2 s hs)
 
 theorem addNode_spec (w : World) (fx : Fx) (count : Nat) (np mp rp : Option (Nat × Nat)) (metrics : Bool)
     (ver : Nat) (hi : Inv w) :
@@ -783,7 +796,7 @@ theorem addNode_spec (w : World) (fx : Fx) (count : Nat) (np mp rp : Option (Nat
     · exact ⟨hi, id, fun _ _ h => h⟩
     · split
       · exact ⟨hi, id, fun _ _ h => h⟩
-      · have := addLoop_spec count (maxNumber w.reg + 1) (np.map (·.1)) (mp.map (·.1)) (rp.map (·.1)) metrics ver
+      · have := addLoop_spec count (startNumber w.reg) (np.map (·.1)) (mp.map (·.1)) (rp.map (·.1)) metrics ver
           ⟨w, fx, [], [], false⟩ (fresh_maxNumber w.reg) hi
         split
         · exact this
